@@ -21,7 +21,7 @@ class C18(BaseCheck):
   REQUIRED_CLASSES = ('counter', 'gauge', 'percentile:below-reservoir', 'percentile:above-reservoir',
                       'full-stack', 'percentile:busy-after-full', 'zero-increment', 'fractional-increment',
                       'overlapping-measure', 'gauge:persistent-objects', 'percentile:second-aggregation',
-                      'sibling-class-same-short-name', 'source-subclass', 'client-id:equal-not-identical')
+                      'sibling-class-same-short-name', 'source-subclass', 'client-id:equal-not-identical', 'percentile:idle-siblings')
   ASSUMPTIONS = ('percentile bounds allow 1e-9 relative slack for the linear interpolation',)
   QUICK_CASES = 720
   THOROUGH_CASES = 40000
@@ -226,6 +226,16 @@ class C18(BaseCheck):
     pt = ('pm', 'psvc%d' % idx, 'ph:1', None)
     the_src = Source(*pt)
     metric = 'verif.c18.' + rng.choice(['lat', 'sz'])
+    if size <= 10 and idx % 2 == 1:
+      # other endpoints of the same service recorded samples long ago and have been idle for more than
+      # five minutes since: only the live source's samples may shape what is reported for the service
+      classes.add('percentile:idle-siblings')
+      for j in range(rng.choice([1, 3, 6])):
+        sib = Source('pm', pt[1], 'ph-idle:%d' % j, None)
+        for _k in range(rng.randint(1, 4)):
+          VarzReceiver.RecordPercentileSample(sib, metric, 50000.0 + rng.random())
+      for _m in range(6):
+        env.advance(60.0)
     for i in range(size):
       if stream_cls == 'constant':
         v = 3.25
